@@ -51,7 +51,13 @@ func (ex *Exec) primAtom(name string, nv Value) Value {
 
 func (ex *Exec) primOrder(name string, nv Value) Value {
 	nb, _ := bigOf(nv)
-	o := smt.Var(name, smt.Int, big.NewInt(2), nb.I.Hi)
+	// order of the quadratic residues p'q' = (p-1)(q-1)/4: between N/8 and N/4 for a modulus of two primes of equal length
+	lo, hi := big.NewInt(2), nb.I.Hi
+	if nb.I.Lo != nil && nb.I.Lo.BitLen() > 16 {
+		lo = new(big.Int).Rsh(nb.I.Lo, 3)
+		hi = new(big.Int).Rsh(nb.I.Hi, 2)
+	}
+	o := smt.Var(name, smt.Int, lo, hi)
 	ex.modKinds[o.ID] = &ModInfo{Kind: "order", Name: name}
 	return ex.newBig(BigVal{I: o, E: smt.RealC(new(big.Rat))})
 }
